@@ -173,8 +173,23 @@ def run_case(rec, case):
         by_id = {f["id"]: p for p, f in reg.items()}
         names = [by_id[i] for i in case["excl"]["names_idx"] if i in by_id]
         excl = list(names) + list(periods)
-        fs = fm.make_fileset(base, layout, name="F", exclude=excl or None,
-                             handler=FileHandler(reader=reader))
+        if case.get("prev_dirs"):
+            # object history: the FileSet was built on another directory layout (nothing there), asked
+            # once, and then pointed to the real files by assigning its path
+            prev = [d for d in fm.DIR_LAYOUTS if d[0] == case["prev_dirs"]][0]
+            lay0 = fm.Layout(prev[0], prev[1], prev[2], layout.end_style, with_sat=layout.with_sat,
+                             wildcard=False, coverage=layout.coverage)
+            fs = fm.make_fileset(base + "/elsewhere", lay0, name="F", exclude=excl or None,
+                                 handler=FileHandler(reader=reader))
+            try:
+                fs.find_closest(dt.datetime(2017, 6, 1))
+            except Exception:
+                pass
+            fs.path = base.rstrip("/") + "/" + layout.template
+            rec.count("closest.path_reassigned_filesets")
+        else:
+            fs = fm.make_fileset(base, layout, name="F", exclude=excl or None,
+                                 handler=FileHandler(reader=reader))
         for ts, filters, via in case["stamps"]:
             if filters and not layout.with_sat:
                 continue
@@ -190,15 +205,24 @@ def single_case(rec, rng):
     try:
         p = base + "/the_one_file.dat"
         open(p, "w").write("77")
-        fs = FileSet(path=p, handler=FileHandler(reader=reader),
-                     time_coverage=(dt.datetime(2017, 1, 1), dt.datetime(2017, 1, 2)))
-        for t in (dt.datetime(2017, 1, 1, 12), dt.datetime(1990, 1, 1), dt.datetime(2050, 1, 1)):
-            rec.ev()
-            rec.count("single.calls")
-            got = fs.find_closest(t)
-            if os.fspath(got) != p or fs[t] != 77:
-                rec.violation("closest-wrong-answer", {"kind": "single", "t": t.isoformat()},
-                              {"why": "single-file fileset", "got": repr(got)})
+        for cov in ((dt.datetime(2017, 1, 1), dt.datetime(2017, 1, 2)), None):
+            kw = {} if cov is None else {"time_coverage": cov}
+            fs = FileSet(path=p, handler=FileHandler(reader=reader), **kw)
+            for t in (dt.datetime(2017, 1, 1, 12), dt.datetime(2017, 1, 1), dt.datetime(2017, 1, 2),
+                      dt.datetime(1990, 1, 1), dt.datetime(2050, 1, 1)):
+                rec.ev()
+                rec.count("single.calls")
+                case = {"kind": "single", "t": t.isoformat(), "time_coverage": cov is not None}
+                try:
+                    got = fs.find_closest(t)
+                    content = fs[t]
+                except Exception as exc:
+                    rec.violation("closest-wrong-answer", case,
+                                  {"why": "single-file fileset", "exception": repr(exc)})
+                    continue
+                if got is None or os.fspath(got) != p or content != 77:
+                    rec.violation("closest-wrong-answer", case,
+                                  {"why": "single-file fileset", "got": repr(got), "content": repr(content)})
     finally:
         shutil.rmtree(base, ignore_errors=True)
 
@@ -229,6 +253,10 @@ def gen_case(rng):
     case = c01.make_case([layout], files, names_idx, periods, [])
     case["kind"] = "closest"
     case["stamps"] = stamps
+    if rng.random() < 0.25:
+        case["prev_dirs"] = rng.choice([d[0] for d in fm.DIR_LAYOUTS
+                                        if not any("{sat}" in x or "*" in x for x in d[1])
+                                        and d[0] != layout.dirs_name])
     return case
 
 
